@@ -1,5 +1,6 @@
 (* Struct/LayoutProofs.v — proofs about Struct/Layout.v.  No axioms, nothing admitted. *)
 From PV Require Import Base.Prelude Bits.BitsSpec Bits.BitsLemmas Struct.Shape Struct.Layout.
+(* -- *)
 Open Scope Z_scope.
 
 (* ------------------------------------------------------------------ small facts *)
